@@ -94,13 +94,23 @@ def time_limit(seconds: float):
     old = signal.signal(signal.SIGALRM, handler)
     # repeating: if the first alarm is swallowed (e.g. it fires inside a gc callback) the next one still ends the call
     signal.setitimer(signal.ITIMER_REAL, seconds, 2.0)
+    timed_out = False
     try:
-        yield
-    except _Timeout:
-        raise Inconclusive("timeout") from None
+        try:
+            yield
+        except _Timeout:
+            timed_out = True
     finally:
-        signal.setitimer(signal.ITIMER_REAL, 0)
-        signal.signal(signal.SIGALRM, old)
+        # disarm; on a heavily loaded machine a repeat alarm can fire while we are in here
+        while True:
+            try:
+                signal.setitimer(signal.ITIMER_REAL, 0)
+                signal.signal(signal.SIGALRM, old)
+                break
+            except _Timeout:
+                timed_out = True
+    if timed_out:
+        raise Inconclusive("timeout")
 
 
 _SOLVER_DIRS = ("/cvxopt/", "/picos/", "/scs/", "/clarabel/", "/cvxpy/", "/ecos/", "/osqp/")
